@@ -107,7 +107,7 @@ def _zip_request(w):
     view, ok = lex_listing("G", r.out)
     if r.escaped is not None:
         ok = False
-    return {"ev": "request", "p": "G", "view": view, "listed": True, "rewritten": True, "ok": ok}, \
+    return {"ev": "request", "p": "G", "view": view, "listed": True, "rewritten": True, "touched": False, "ok": ok}, \
            {"raw": r.out[:300].decode("latin-1"), "log": r.log[-2:], "escaped": r.escaped}
 
 
